@@ -156,6 +156,12 @@ impl Exec {
 
     /// buffer argument `key`: inline bytes / sparse object under `key`, or a slot name under `<key>slot`
     pub fn buf(&self, op: &Value, key: &str) -> &'static [u8] {
+        let b = self.buf_inner(op, key);
+        crate::alloc::input_seen(b.len());
+        b
+    }
+
+    fn buf_inner(&self, op: &Value, key: &str) -> &'static [u8] {
         match &op[key] {
             Value::Array(_) => leak(rd_bytes(&op[key])),
             Value::Object(o) => leak(materialise(o)),
@@ -171,6 +177,7 @@ impl Exec {
         let name = op["op"].as_str().unwrap_or("");
         match name {
             "session" => {
+                crate::alloc::input_reset();
                 self.slots.clear();
                 self.stream = None;
                 self.bytes = None;
@@ -181,6 +188,7 @@ impl Exec {
                     Value::Array(_) => leak(rd_bytes(&op["bytes"])),
                     _ => leak(materialise(op.as_object().unwrap())),
                 };
+                crate::alloc::input_seen(b.len());
                 self.slots.insert(op["slot"].as_str().unwrap_or("a").to_string(), b);
                 vec![op.clone()]
             }
